@@ -215,8 +215,12 @@ Definition discover_sign (m M : value) : option sign :=
 (* one rule per constraint kind; every rule is silent when there are no records *)
 Definition has_rows (c : column) : bool := Z.ltb 0 (nrecords c).
 Definition is_str (c : column) : bool := ctype_eqb (c_type c) TString.
+(* the fields whose distinct values are counted: every recognised type but real (since fix in baseconstraints.py:
+   before it, date and bool fields were left out and never got no_duplicates) *)
+Definition counts_distinct (t : ctype) : bool :=
+  match t with TString | TInt | TDate | TBool => true | TReal | TOther => false end.
 Definition nunique_used (c : column) : Z :=
-  if is_str c || ctype_eqb (c_type c) TInt then nunique c else (-1).
+  if counts_distinct (c_type c) then nunique c else (-1).
 
 Definition d_min (c : column) : list constr :=
   if has_rows c && negb (is_str c)
